@@ -595,6 +595,107 @@ def rule_stmt_eval(chk):
     return True
 
 
+CTOR_TYPES = ["Float32", "Int32", "Bool", "Float322", "Float324", "Int323", "Float322x2"]
+CTOR_ARGS = [("Int32", 0, "Lvalue"), ("Float32", 0, "Rvalue"), ("Bool", 1, "Lvalue"), ("Float322", 1, "Lvalue"), ("Int323", 0, "Rvalue"), ("Float324", 0, "Lvalue"),
+             ("Float322x2", 0, "Lvalue"), ("Struct", 0, "Lvalue"), ("Enum", 0, "Rvalue")]
+
+
+def _ctor_task(tname):
+    """T(args..) for every list of 1..3 arguments -> (tname, readable, cases, accepted, bad)"""
+    import itertools
+    el, ls, rs, intr = _elab()
+    bad = {"type": []}
+    cases = n_ok = 0
+    args = [el.ety(*a) for a in CTOR_ARGS if a[0] in el.u.names]
+    tgt = el.ety(tname, 0, "Rvalue")
+    for k in (1, 2, 3):
+        for combo in itertools.product(args, repeat=k):
+            cases += 1
+            res, operands = el.run_constructor(tname, list(combo))
+            what = "%s(%s)" % (tname, ", ".join(el.describe(x) for x in combo))
+            if res[0] == "unreadable":
+                return (tname, False, cases, n_ok, res[1])
+            if res[0] == "aborts":
+                addbad(bad, "%s: elaboration aborts (%s)" % (what, res[1]))
+            if res[0] != "Ok":
+                continue
+            n_ok += 1
+            node, ty = res[1], res[2]
+            slots = node.fields.get("1") if isinstance(node, I.Enum) and node.variant == "Constructor" else None
+            if not isinstance(slots, list) or node.fields.get("0") != tgt.fields["0"] or ty != tgt:
+                addbad(bad, "%s: does not elaborate to a constructor of the type" % what)
+                continue
+            if [el.leaves(x) for x in slots] != [[t] for t in el.TAGS[:k]]:
+                addbad(bad, "%s: the constructor's slots are not the arguments in order" % what)
+                continue
+            total = 0
+            for i, sl in enumerate(slots):
+                e = sl.fields.get("expr")
+                t = el.node_type(e, operands)
+                n_el = el.elements(t[1]) if t[0] == "ok" else None
+                if n_el is None or el.scalar(t[1]) != el.scalar(tgt) or not el.casts_ok(e, operands):
+                    addbad(bad, "%s: slot %d (%s) is not a numeric value of the constructed element type" % (what, i, el.show(e)))
+                    break
+                if sl.fields.get("arity") != n_el or n_el != el.elements(combo[i]):
+                    addbad(bad, "%s: slot %d is recorded with arity %s but has %s elements" % (what, i, sl.fields.get("arity"), n_el))
+                    break
+                total += n_el
+            else:
+                if total != el.elements(tgt):
+                    addbad(bad, "%s is accepted: the arguments supply %d elements, the type has %d" % (what, total, el.elements(tgt)))
+    return (tname, True, cases, n_ok, bad)
+
+
+def rule_ctor_eval(chk):
+    """parse_expr_constructor evaluated for numeric types x all argument lists of length <= 3 over nine operand types:
+    slots are the arguments in order, each converted to the constructed element type, arities sum to the element count."""
+    f = chk.facts
+    el, ls, rs, intr = _elab()
+    pc = f.fn("parse_expr_constructor", TY)
+    if not pc:
+        return False
+    res = _pmap(_ctor_task, [t for t in CTOR_TYPES if t in el.u.names])
+    if not all(r[1] for r in res):
+        chk.note("C03.ctor: parse_expr_constructor is not readable (%s)" % [(r[0], r[4]) for r in res if not r[1]][:1])
+        return False
+    for tname, _r, cases, n_ok, bad in sorted(res):
+        chk.ob("C03.ctor/" + tname, not bad["type"], "%d argument lists (%d accepted): slots in order, converted to the element type, element counts add up" % (cases, n_ok)
+               if not bad["type"] else "; ".join(m for k, m in bad["type"]), where(pc), sample={"type": tname, "cases": cases, "accepted": n_ok})
+    chk.floor("C03.floor/ctor-accepted", sum(r[3] for r in res), 100, "accepted constructors checked", where(pc))
+    return True
+
+
+def abort_survey(facts, tier="quick"):
+    """For C08: the elaboration tables run again, keeping only the operand combinations on which the typer itself aborts or
+    builds a node whose type the IR rule cannot give without aborting. -> {family: (cases, [messages]) } | None if
+    a table is not readable."""
+    _W.clear()
+    _W["facts"], _W["tier"] = facts, tier
+    el, ls, rs, intr = _elab()
+    if not el.binop or not el.unop or not el.get_type:
+        return None
+    out = {}
+    binops = facts.variants("ast_expressions::BinOp", "rssl_ast") or []
+    unops = facts.variants("ast_expressions::UnaryOp", "rssl_ast") or []
+    names = [n for n in ("Float32", "Int32", "Float322", "Float324", "Bool3", "Float322x2", "Int324x4", "Struct", "Enum", "Float32[4]", "Struct[]", "const Float324[2]")
+             if n in el.u.names] + list(el.u.objects)
+    fams = [("binary-operators", _binop_task, binops), ("unary-operators", _unop_task, unops), ("ternary", _ternary_task, list(range(13))),
+            ("member-and-subscript", _access_task, names), ("calls", _call_task, [t for t in QUICK_TYPES if t in el.u.names]),
+            ("return-and-initialisers", _stmt_task, [t for t in QUICK_TYPES + ["Void"] if t in el.u.names]),
+            ("constructors", _ctor_task, [t for t in CTOR_TYPES if t in el.u.names])]
+    for fam, task, items in fams:
+        res = _pmap(task, items)
+        if not all(r[1] for r in res):
+            return None
+        msgs = []
+        for r in res:
+            for k, m in r[4]["type"]:
+                if "aborts" in m or "refuses the node" in m:
+                    msgs.append(m)
+        out[fam] = (sum(r[2] for r in res), msgs)
+    return out
+
+
 
 def run(chk):
     f = chk.facts
@@ -602,6 +703,7 @@ def run(chk):
     rule_access_eval(chk)
     rule_call_eval(chk)
     rule_stmt_eval(chk)
+    rule_ctor_eval(chk)
     if not rb:
         rule_assign(chk)
     if not ru:
